@@ -11,6 +11,14 @@ boundary code points and seeded random cases are run through dump_cookie / Respo
 back by sansio.http.parse_cookie, http.parse_cookie (environ) and the test client's jar; every recorded line is
 judged by CookieTrace.tla (which also reports drift from the implementation-shaped model).  Random Cookie header
 strings are additionally parsed by the real parser and compared with the scanner model (drift only, no verdict).
+
+Growth: spec/cookie/ClientJar.tla models the test client's jar as a state machine (stored cookies keyed by (domain, path,
+name), model clock; Set-Cookie set / overwrite / delete, redirect following, Client.set_cookie / delete_cookie / get_cookie).
+TLC explores every history up to 3-4 steps and checks the contract on every transition (a live, undeleted cookie comes back
+on every matching request, nothing is sent to a non-matching origin / path or after deletion, stored attributes are the
+requested ones); broken matcher / delete variants must violate it.  The labelled transition system is exported and every
+transition replayed on a real werkzeug.test.Client (echo app, patched clock); seeded random histories are recorded and
+judged by ClientJarTrace.tla (clauses JarSM...).
 """
 from __future__ import annotations
 
@@ -53,6 +61,79 @@ def _model_cases(ctx, cfgs):
             jobs.append((kind, {"key": v["key"], "value": v["value"], "a": v["a"], "x": {"via": "dump_cookie"}}))
         ctx.notes.setdefault("model_cases_exported", {})[cfg] = len(vals)
     return jobs
+
+
+# ---------------------------------------------------------------------- the test client's jar as a state machine
+def _jar_paths(ctx, cfg, limit):
+    """export the labelled transition system of MCClientJar and derive one history per transition (shortest path + the transition)"""
+    import json
+
+    recs = [v for v in ctx.export(AREA, "MCClientJar", cfg, count_states=False, timeout=1800) if isinstance(v, dict) and "pre" in v]
+    if not recs:
+        raise tlc.MachineryError(f"export {cfg} produced no transitions")
+
+    def node(st):
+        return json.dumps({"jar": sorted(json.dumps(c, sort_keys=True) for c in st["jar"]), "now": st["now"], "steps": st["steps"]}, sort_keys=True)
+
+    reach = {}  # node -> list of steps of a shortest history (the step counter is part of the state: the graph is layered)
+    init = node({"jar": [], "now": 1, "steps": 0})
+    reach[init] = []
+    recs.sort(key=lambda r: r["pre"]["steps"])
+    hist = []
+    for r in recs:
+        pre, post = node(r["pre"]), node(r["post"])
+        if pre not in reach:
+            raise tlc.MachineryError("exported transition from an unreached state")
+        h = reach[pre] + [ck.jar_step_from_model(r["act"])]
+        reach.setdefault(post, h)
+        hist.append(h)
+    ctx.notes.setdefault("jar_lts", {})[cfg] = {"transitions": len(recs), "states": len(reach)}
+    if len(hist) > limit:
+        hist = ctx.rng.sample(hist, limit)
+    return hist
+
+
+def _jar_dispatch(job):
+    kind, arg = job
+    steps = ck.rand_jar_history(arg) if kind == "jar-rand" else arg
+    return steps, ck.run_jar_history(steps)
+
+
+def _jar_key(clause, ln):
+    return f"{clause}:{ln['op']}"
+
+
+def run_jar_sm(ctx: Ctx):
+    q = ctx.quick
+    import concurrent.futures as cf
+
+    variants = (("MCJQ_nodot", "AllRequestsOK"), ("MCJQ_noslash", "AllRequestsOK"), ("MCJQ_keepdeleted", "DeleteSteps"))
+    with cf.ThreadPoolExecutor(max_workers=3) as ex:  # the deliberately broken variants run next to the real model
+        futs = {cfg: ex.submit(tlc.run_tlc, AREA, "MCClientJar", cfg, workers=2, tmp=ctx.tmp, allow_violation=True) for cfg, _ in variants}
+        for cfg in ("MCJQ_real",) if q else ("MCJQ_real", "MCJT_real", "MCJT_deep"):
+            ctx.model_check(AREA, "MCClientJar", cfg, timeout=3000)
+        broken = {cfg: f.result().invariant_violated for cfg, f in futs.items()}
+    for cfg, want in variants:
+        if broken[cfg] != want:
+            raise tlc.MachineryError(f"broken jar variant {cfg} no longer violates {want} (vacuity): {broken[cfg]}")
+    ctx.notes["jar_broken_variants_violate"] = broken
+    jobs = [("jar-model", h) for h in _jar_paths(ctx, "MCJX_q" if q else "MCJX_t", 1500 if q else 30000)]
+    jobs += [("jar-rand", ctx.seed * 1000033 + i) for i in range(400 if q else 12000)]
+    results = pmap(_jar_dispatch, jobs, workers=ctx.workers, chunksize=32)
+    lines, hists = [], {}
+    for t, (job, (steps, out)) in enumerate(zip(jobs, results)):
+        hists[t] = steps
+        for i, ln in enumerate(out):
+            ln["t"], ln["i"], ln["flow"] = t, i, job[0]
+            lines.append(ln)
+        ctx.count(len(steps), ("jar", job[0], str(steps)) if len(steps) >= 2 else None)
+    by = {(ln["t"], ln["i"]): ln for ln in lines}
+    for rj in ctx.judge(AREA, "ClientJarTrace", lines, batch=3000, timeout=1800):
+        ln = by[(rj["t"], rj["i"])]
+        ctx.violation(_jar_key(rj["clause"], ln), rj["clause"], {"jar_history": hists[rj["t"]], "i": rj["i"]}, kind="c13-jar")
+    ctx.notes["jar_lines"] = {f: sum(1 for ln in lines if ln["flow"] == f) for f in ("jar-model", "jar-rand")}
+    if lines:
+        ctx.sample({"kind": "jar history", "ops": [s["op"] for s in hists[len(hists) - 1]]})
 
 
 def run(ctx: Ctx):
@@ -109,9 +190,19 @@ def run(ctx: Ctx):
         kind, case = cases[rj["t"]]
         ctx.violation(_key(rj["clause"], ln), rj["clause"], {"case": case, "op": ln["op"]}, kind="c13")
     ctx.notes["lines_by_flow"] = {f: sum(1 for ln in lines if ln["flow"] == f) for f in sorted({ln["flow"] for ln in lines})}
+    run_jar_sm(ctx)
 
 
 def replay(ctx: Ctx, data):
+    if data.get("kind") == "c13-jar":
+        out = ck.run_jar_history(data["case"]["jar_history"])
+        for i, ln in enumerate(out):
+            ln["t"], ln["i"] = 0, i
+        ctx.count(len(out), "replay")
+        ctx.sample({"kind": "jar history", "ops": [ln["op"] for ln in out]})
+        for rj in ctx.judge(AREA, "ClientJarTrace", out):
+            ctx.violation(_jar_key(rj["clause"], out[rj["i"]]), rj["clause"], data["case"], kind="c13-jar")
+        return
     case, op = data["case"]["case"], data["case"]["op"]
     ln = ck.run_jar(case) if op == "jar" else ck.run_dump(case)
     ln["t"], ln["i"] = 0, 0
